@@ -346,7 +346,7 @@ namespace
                         }
                         ++judged;
                         long double allowed = 1e-10L * scale + (p.n == 1.0 ? 0.0L : static_cast<long double>(p.tol) * (1 + 1e-9L));
-                        if (std::fabs(R) > allowed)
+                        if (!(std::fabs(R) <= allowed))
                         {
                             V("residual-too-large/" + n_class(p.n) + (multi ? "/multiple-direction" : "/single-direction"),
                               "node " + node_s(i) + " residual " + hexd(static_cast<double>(R)) + " allowed "
